@@ -186,6 +186,12 @@ def run(tier, seed):
                                 ck.fail('chip position / node are not taken from the stated bytes', rp | {'actual': members['Chip Desc']}, 'sig_fields')
                             if ('(%d)[%d] ' % (inst, bit)) not in members['Signature']:
                                 ck.fail('signature instance / bit are not taken from the stated bytes', rp | {'actual': members['Signature']}, 'sig_fields')
+                            # names come from the chip data file when one exists for the model (looked up case-insensitively)
+                            cd = next((x for x in chips if int(x['model_ec']['id'], 16) == a), None)
+                            if cd is not None and 'desc' in cd['model_ec'] and ('(%s)' % cd['model_ec']['desc']) not in members['Chip Desc']:
+                                ck.fail('the chip description is not taken from the chip data file that exists for the model', rp | {'actual': members['Chip Desc']}, 'sig_chipdata')
+                            if cd is not None and 'type' in cd['model_ec'] and (' %s %d (' % (cd['model_ec']['type'], chip)) not in members['Chip Desc']:
+                                ck.fail('the chip type is not taken from the chip data file that exists for the model', rp | {'actual': members['Chip Desc']}, 'sig_chipdata')
                             if not chips and real != nodata:
                                 ck.fail('without chip data the raw numbers are not shown', rp | {'actual': real, 'expected': nodata}, 'sig_nodata')
                         if real != model:
